@@ -481,6 +481,17 @@ static void run1(Slot<T> &s, const Label &lb, Result &r) {
 #else
     r.unsupported();
 #endif
+  } else if (op == "insertNHuge" || op == "appendNHuge") {
+    if constexpr (amc) {
+      tmp.emplace(lb.v);
+      const SZ count = static_cast<SZ>(std::numeric_limits<SZ>::max() - static_cast<SZ>(lb.n));
+      if (op == "insertNHuge")
+        guarded(lb, r, [&] { { auto it_ = v.insert(v.begin() + lb.pos, count, *tmp); r.idx(it_ - v.begin()); } });
+      else
+        guarded(lb, r, [&] { v.append(count, *tmp); });
+    } else {
+      r.unsupported();
+    }
   } else if (op == "eraseIf") {
 #if __cplusplus >= 202002L
     guarded(lb, r, [&] { r.val(static_cast<long>(erase_if(v, [&](const E &e) { return e.v % 2 == lb.n; }))); });
